@@ -36,9 +36,11 @@ ASSUMPTIONS = [
 
 
 # ------------------------------------------------------------------------------------------- (a) components
-def check_components(ck, Q, pair, site, naxes_coll=False):
-    dg, f = call(site + ":is_degenerate", lambda: Q.is_degenerate)
-    if f:
+def check_components(ck, Q, pair, site, naxes_coll=False, degenerate_flag=True):
+    dg, f = call(site + ":is_degenerate", lambda: Q.is_degenerate) if degenerate_flag else (None, None)
+    if not degenerate_flag:
+        pass  # matrices of magnitude 1e6: the determinant test of is_degenerate is an absolute 1e-8 (outside its range)
+    elif f:
         ck.add(f)
     else:
         ck.check(np.all(dg), site + ":is_degenerate", np.asarray(dg).tolist())
@@ -123,7 +125,7 @@ def gen_pair(draw, tier="quick"):
         g = [0 if i == k else x for i, x in enumerate(g)]
         h = [0 if i == (k + 1) % n else x for i, x in enumerate(h)]
     im = [[draw(C.ints(4)) for _ in range(n)], [draw(C.ints(4)) for _ in range(n)]] if draw(st.integers(0, 3)) == 0 else None
-    return {"g": g, "h": h, "sg": draw(C.scale()), "sh": draw(C.scale()), "kind": kind, "coll": draw(st.sampled_from([0, 0, 2, 3, 64, 70])) if im is None else 0, "im": im}
+    return {"g": g, "h": h, "sg": draw(C.scale()), "sh": draw(C.scale()), "kind": kind, "coll": draw(st.sampled_from([0, 0, 2, 3, 64, 70, 5])) if im is None else 0, "im": im}
 
 
 def run_gen_pair(c):
@@ -139,6 +141,16 @@ def run_gen_pair(c):
     # pairs cross the batch size at which the linear-algebra kernels switch their algorithm
     hs = [h + (i % 5) * g for i, (g, h) in enumerate(zip(gs, hs))]
     ck = Checker()
+    if k == 5:
+        # five raw matrices g h^T + h g^T whose magnitudes differ by factors up to 1e6 (every non-zero multiple is a representative
+        # of the same pair): the components at every position are those of the single quadric
+        mags = [1.0, 1e6, 1e3, 1e-2, 4e5]
+        try:
+            Q = QuadricCollection(np.stack([(np.outer(g, h) + np.outer(h, g)) * m for g, h, m in zip(gs, hs, mags)]))
+        except Exception as e:  # noqa: BLE001
+            return [exc_fail(e, "collection-of-pairs")]
+        check_components(ck, Q, [np.array(gs), np.array(hs)], ("lines" if n == 3 else "planes") + ":coll:magnitudes-1e-2..1e6", naxes_coll=True, degenerate_flag=False)
+        return ck.result()
     try:
         if k >= 64:
             # for 64 or more matrices the determinant is evaluated by the explicit cofactor formula, whose rounding error reaches
@@ -376,7 +388,7 @@ LAWS = [
     Law("plane_pairs_lattice", None, run_pair, pair_nontrivial, lambda c: [], enumerate=plane_lattice_pairs, enum_shards=8,
         exhaustive=lambda tier: {"name": "pairs of vectors of {-2..2}^4 as plane pairs, stride sample", "size": 624 * 624 // (389 if tier == "quick" else 41), "exhaustive": False},
         rule="Quadric.from_planes(e,f): degenerate, components = {e,f}"),
-    Law("generated_pairs", lambda tier: gen_pair(tier), run_gen_pair, pair_nontrivial, lambda c: [f"n{len(c['g'])}", c["kind"], "coll" if c["coll"] else "single"] + (["collection>=64"] if c["coll"] >= 64 else []) + (["complex-pair"] if c.get("im") else []),
+    Law("generated_pairs", lambda tier: gen_pair(tier), run_gen_pair, pair_nontrivial, lambda c: [f"n{len(c['g'])}", c["kind"], "coll" if c["coll"] else "single"] + (["collection>=64"] if c["coll"] >= 64 else []) + (["collection-of-very-different-magnitudes"] if c["coll"] == 5 else []) + (["complex-pair"] if c.get("im") else []),
         {"quick": 2000, "thorough": 40000}, "generated line/plane pairs, all sign patterns, parallel / at infinity / zeros, collections", shard=300),
     Law("not_reducible", lambda tier: nondeg_case(tier), run_nondeg, lambda c: True, lambda c: [c["what"], f"d{c['d']}"], {"quick": 800, "thorough": 15000},
         "non-degenerate quadrics are not degenerate; rank >= 3 quadrics of 3-space raise NotReducible", shard=300),
